@@ -37,36 +37,54 @@ def nats(s):
 
 
 def eval_source(o):
+    """The correspondence run of one observation as several Coq files (shards evaluated in parallel): each shard holds the
+    pool terms and only the observed rows / tables its definitions read. Returns [(suffix, source, names)]."""
     n = o["n"]
-    src = ["From Coq Require Import List ZArith NArith Bool String.",
-           "From RG.Types Require Import GType XIdentical C14Run.",
-           "Import ListNotations. Local Open Scope string_scope.",
-           "Definition p1 : list gtype := [\n%s\n]." % ";\n".join(o["terms1"]),
-           "Definition p2 : list gtype := [\n%s\n]." % ";\n".join(o["terms2"])]
-    for k in ("x11", "x12", "x21", "x22", "g1", "i11", "i12", "i21"):
-        src.append("Definition o_%s : list string := %s." % (k, coq_str_list(o[k])))
-    src.append("Definition if1 : list gtype := [\n%s\n]." % ";\n".join(o["ifterms1"]))
-    src.append("Definition if2 : list gtype := [\n%s\n]." % ";\n".join(o["ifterms2"]))
-    src.append("Definition mids : list string := %s." % coq_str_list(o["method_ids"]))
-    for u in ("1", "2"):
-        rows = []
-        for i in range(n):
-            rows.append("(%s, [%s])" % ("true" if o["is_iface"][i] else "false", "; ".join(o["lookups" + u][i])))
-        src.append("Definition v%s : list (bool * list lookup_res) := [\n%s\n]." % (u, ";\n".join(rows)))
-    defs = [
-        ("R_wf1", "bad_indices wf p1"), ("R_wf2", "bad_indices wf p2"),
-        ("R_un1", "bad_indices (in_univ 1) p1"), ("R_un2", "bad_indices (in_univ 2) p2"),
-        ("R_tp", "bad_indices tpfree p1"),
-        ("R_m11", "mismatches identical_x p1 p1 o_x11"), ("R_m12", "mismatches identical_x p1 p2 o_x12"),
-        ("R_m21", "mismatches identical_x p2 p1 o_x21"), ("R_m22", "mismatches identical_x p2 p2 o_x22"),
-        ("R_s11", "mismatches go_identicalb p1 p1 o_g1"), ("R_s22", "mismatches go_identicalb p2 p2 o_g1"),
-        ("R_s12", "mismatches x_specb p1 p2 o_g1"), ("R_s21", "mismatches x_specb p2 p1 o_g1"),
-        ("R_i11", "mismatches (impl_model mids) v1 if1 o_i11"), ("R_i12", "mismatches (impl_model mids) v1 if2 o_i12"),
-        ("R_i21", "mismatches (impl_model mids) v2 if1 o_i21"),
+    head = ["From Coq Require Import List ZArith NArith Bool String.",
+            "From RG.Types Require Import GType XIdentical C14Run.",
+            "Import ListNotations. Local Open Scope string_scope."]
+    pool = ["Definition p1 : list gtype := [\n%s\n]." % ";\n".join(o["terms1"]),
+            "Definition p2 : list gtype := [\n%s\n]." % ";\n".join(o["terms2"])]
+
+    def rows(k):
+        # packed four cells per hex digit (C14Run.unhex); reading a string literal costs coqc its length
+        packed = []
+        for r in o[k]:
+            r = r + "0" * (-len(r) % 4)
+            packed.append("".join("%x" % int(r[i:i + 4], 2) for i in range(0, len(r), 4)))
+        return "Definition o_%s : list string := map unhex %s." % (k, coq_str_list(packed))
+
+    def impl_tables():
+        src = ["Definition if1 : list gtype := [\n%s\n]." % ";\n".join(o["ifterms1"]),
+               "Definition if2 : list gtype := [\n%s\n]." % ";\n".join(o["ifterms2"]),
+               "Definition mids : list string := %s." % coq_str_list(o["method_ids"])]
+        for u in ("1", "2"):
+            rws = []
+            for i in range(n):
+                rws.append("(%s, [%s])" % ("true" if o["is_iface"][i] else "false", "; ".join(o["lookups" + u][i])))
+            src.append("Definition v%s : list (bool * list lookup_res) := [\n%s\n]." % (u, ";\n".join(rws)))
+        return src
+    shards = [
+        ("hyp", pool, [("R_wf1", "bad_indices wf p1"), ("R_wf2", "bad_indices wf p2"),
+                       ("R_un1", "bad_indices (in_univ 1) p1"), ("R_un2", "bad_indices (in_univ 2) p2"),
+                       ("R_tp", "bad_indices tpfree p1")]),
+        ("m11", pool + [rows("x11")], [("R_m11", "mismatches identical_x p1 p1 o_x11")]),
+        ("m12", pool + [rows("x12")], [("R_m12", "mismatches identical_x p1 p2 o_x12")]),
+        ("m21", pool + [rows("x21")], [("R_m21", "mismatches identical_x p2 p1 o_x21")]),
+        ("m22", pool + [rows("x22")], [("R_m22", "mismatches identical_x p2 p2 o_x22")]),
+        ("s1", pool + [rows("g1")], [("R_s11", "mismatches go_identicalb p1 p1 o_g1"), ("R_s22", "mismatches go_identicalb p2 p2 o_g1")]),
+        ("s2", pool + [rows("g1")], [("R_s12", "mismatches x_specb p1 p2 o_g1"), ("R_s21", "mismatches x_specb p2 p1 o_g1")]),
+        ("i11", impl_tables() + [rows("i11")], [("R_i11", "mismatches (impl_model mids) v1 if1 o_i11")]),
+        ("i12", impl_tables() + [rows("i12")], [("R_i12", "mismatches (impl_model mids) v1 if2 o_i12")]),
+        ("i21", impl_tables() + [rows("i21")], [("R_i21", "mismatches (impl_model mids) v2 if1 o_i21")]),
     ]
-    for name, body in defs:
-        src.append("Definition %s := Eval vm_compute in (%s).\nPrint %s." % (name, body, name))
-    return "\n".join(src), [d[0] for d in defs]
+    out = []
+    for suffix, tables, defs in shards:
+        src = head + tables
+        for name, body in defs:
+            src.append("Definition %s := Eval vm_compute in (%s).\nPrint %s." % (name, body, name))
+        out.append((suffix, "\n".join(src), [d[0] for d in defs]))
+    return out
 
 
 def run(c):
@@ -79,8 +97,9 @@ def run(c):
               "have the same root constructor (the comparison has to descend) or are identical; distinct by "
               "(alias mode, universe pair, the two type expressions)")
     c.trusted += [
-        "go2coq xnamed: translates sameTypeName, sameID and the `case *types.Named:` clause of typeIdentical (straight-line bool/string "
-        "code plus the canonical loop over the type arguments) into Gallina over the facts they read",
+        "go2coq xnamed: translates sameTypeName, sameID, the `case *types.Named:` clause of typeIdentical (straight-line bool/string "
+        "code plus the canonical loop over the type arguments) and its one-level clauses (Basic, Array, Slice, Pointer, Map, Chan, "
+        "Signature: `if y, ok := y.(*types.K); ok {...}` falling through to the final `return false`) into Gallina over the facts they read",
         "go2coq xtypes: reads ifacePair.identical (==, &&, || over the four addresses) and the call sites of identity/implements "
         "relations in ruleguard, typematch and xtypes; prints the arguments of the relation calls inside the filter constructors, the "
         "dsl natives, FindType and findDependency with single-assignment locals substituted (gen_relation_args / gen_operand_sources)",
@@ -143,13 +162,21 @@ def run(c):
         return res
 
     def compare(obs, tag):
-        jobs, names_of = [], []
-        for o in obs:
-            src, names = eval_source(o)
-            jobs.append(("Cases_%s_s%d_a%s.v" % (tag, o["seed"], o["alias"]), src))
-            names_of.append(names)
-        results = c.coq_eval_many(jobs, timeout=1200)
-        for o, (fname, _), names, (ok, out) in zip(obs, jobs, names_of, results):
+        jobs, owner = [], []
+        for k, o in enumerate(obs):
+            for suffix, src, names in eval_source(o):
+                jobs.append(("Cases_%s_s%d_a%s_%s.v" % (tag, o["seed"], o["alias"], suffix), src))
+                owner.append((k, names))
+        results = c.coq_eval_many(jobs, timeout=1200, workers=14)
+        merged = []
+        for k, o in enumerate(obs):
+            oks, outs, names = True, [], []
+            for (kk, nms), (ok, out) in zip(owner, results):
+                if kk == k:
+                    oks, names = oks and ok, names + nms
+                    outs.append(out if ok else out[-2000:])
+            merged.append(("Cases_%s_s%d_a%s" % (tag, o["seed"], o["alias"]), names, oks, "\n".join(outs)))
+        for o, (fname, names, ok, out) in zip(obs, merged):
             mode, n = o["alias"], o["n"]
             ctx = {"gotypesalias": mode, "seed": o["seed"]}
             if o.get("unsupported"):
@@ -188,6 +215,7 @@ def run(c):
             for key, ua, ub in (("x11", 1, 1), ("x12", 1, 2), ("x21", 2, 1), ("x22", 2, 2)):
                 mm = set(pairs(R.get("R_m" + key[1:]))) if have_model else set()
                 rows, g = o[key], o["g1"]
+                nrep = 0  # unattributed contradictions reported for this universe pair (the replay keeps 20 inputs: leave room for the other sections)
                 for i in range(n):
                     ri, gi = rows[i], g[i]
                     for j in range(n):
@@ -199,6 +227,10 @@ def run(c):
                             if (ua != ub and gi[j] == "1" and ri[j] == "0" and i in tp and j in tp
                                     and have_model and (i, j) not in mm):
                                 finding = FINDING_TP
+                            if finding is None:
+                                nrep += 1
+                                if nrep > 3:
+                                    continue
                             c.fail("oracle", "xtypes.Identical contradicts %s" % (
                                 "types.Identical" if ua == ub else "the counterpart relation across two type-checks"),
                                 input=dict(ctx, a=exprs[i], a_universe=ua, b=exprs[j], b_universe=ub),
@@ -245,17 +277,17 @@ def run(c):
             succ = {a: [b for b in nodes if rel(a, b)] for a in nodes}
             nlaw = 0
             for a in nodes:
-                if not rel(a, a) and nlaw < 10:
+                if not rel(a, a) and nlaw < 4:
                     nlaw += 1
                     c.fail("oracle", "xtypes.Identical is not reflexive", input=dict(ctx, a=nm(a)), expected=True, observed=False)
                 sa = set(succ[a])
                 for b in succ[a]:
-                    if not rel(b, a) and nlaw < 10:
+                    if not rel(b, a) and nlaw < 4:
                         nlaw += 1
                         c.fail("oracle", "xtypes.Identical is not symmetric", input=dict(ctx, a=nm(a), b=nm(b)),
                                expected="a~b implies b~a", observed="a~b but not b~a")
                     for cc in succ[b]:
-                        if cc not in sa and nlaw < 10:
+                        if cc not in sa and nlaw < 4:
                             nlaw += 1
                             c.fail("oracle", "xtypes.Identical is not transitive", input=dict(ctx, a=nm(a), b=nm(b), c=nm(cc)),
                                    expected="a~b and b~c imply a~c", observed="a~b, b~c, not a~c")
